@@ -96,4 +96,44 @@ theorem run_any_diag (fs : Bytes → Option Bytes) (main : Bytes) (A : Nat) (hA 
   obtain ⟨el, o, h1, h2, h3⟩ := run_defs_stmt_diag_any fs main _ hfs els hp A hA defs name as.erase hels tbl hdefs hw hno
   exact ⟨els, el, o, hp, h1, h2, h3⟩
 
+/-! ## non-vacuity: `LDR\tr0 ,[(0x4) + sp]` then a line feed and `;` — tab, hex literal, redundant parentheses, odd spacing -/
+
+def exPieces : List Lex.Piece :=
+  [.tok (bytesOf "LDR") (.ident (bytesOf "LDR")), .ws [9], .tok (bytesOf "r0") (.ident (bytesOf "r0")), .ws [32],
+   .tok [44] .sep, .tok [91] .lbrack, .tok [40] .lparen, .tok (bytesOf "0x4") (.num 4), .tok [41] .rparen, .ws [32],
+   .tok [43] .plus, .ws [32], .tok (bytesOf "sp") (.ident (bytesOf "sp")), .tok [93] .rbrack, .ws [10], .tok [59] .term]
+
+def exPArgs : PArgs :=
+  .cons (.ident (bytesOf "r0")) (.cons (.addr (.bin .add (.paren (.const 4)) (.ident (bytesOf "sp")))) .nil)
+
+example : Lex.pbytes exPieces = bytesOf "LDR\tr0 ,[(0x4) + sp]\n;" ∧
+    Lex.tokVals exPieces = .ident (bytesOf "LDR") :: Render.pargs exPArgs ++ [.term] ∧
+    exPArgs.erase = Args.ofList [.ident (bytesOf "r0"), .addr (.bin .add (.const 4) (.ident (bytesOf "sp")))] := by
+  refine ⟨by decide, by decide, rfl⟩
+
+theorem exPieces_valid : Lex.Valid exPieces none := by
+  have F : ∀ (c : UInt8), Lex.isIdentByte c = false → Lex.Follow (some c) := fun c hc b hb => by cases hb; exact hc
+  refine ⟨.ident _ _ (by decide) (F 9 (by decide)), by decide,
+    .ident _ _ (by decide) (F 32 (by decide)), by decide,
+    .punct 44 _ _ (by decide) (by decide), .punct 91 _ _ (by decide) (by decide), .punct 40 _ _ (by decide) (by decide),
+    ?_, .punct 41 _ _ (by decide) (by decide), by decide, .punct 43 _ _ (by decide) (by decide), by decide,
+    .ident _ _ (by decide) (F 93 (by decide)), .punct 93 _ _ (by decide) (by decide), by decide,
+    .punct 59 _ _ (by decide) (by decide), trivial⟩
+  exact Lex.TokOk.num 16 (bytesOf "4") 4 _ (by decide) (by decide) (by decide) (by decide) (F 41 (by decide))
+
+theorem exPArgs_wf : exPArgs.wf := by
+  refine ⟨?_, ⟨⟨?_, ?_⟩, ?_⟩, trivial⟩
+  · show bytesOf "r0" ≠ []; decide
+  · show (0 : Int) ≤ 4; decide
+  · show (4 : Int) ≤ i64Max; decide
+  · show bytesOf "sp" ≠ []; decide
+
+/-- the file `.addr 0;⏎LDR⇥r0 ,[(0x4) + sp]⏎;` assembles to `01 98` at 0 -/
+example : Asm.run (fun _ => some (bytesOf ".addr 0;\nLDR\tr0 ,[(0x4) + sp]\n;")) [] =
+    .done ⟨true, none, true, [], [(0, (Codec.toBytes [0x9801]).map (·.toUInt8))]⟩ := by
+  have ht : progTextP 0 [] exPieces = bytesOf ".addr 0;\nLDR\tr0 ,[(0x4) + sp]\n;" := by decide
+  exact (run_any (fun _ => some (bytesOf ".addr 0;\nLDR\tr0 ,[(0x4) + sp]\n;")) [] 0 [] (by simp) exPieces exPieces_valid
+    (bytesOf "LDR") exPArgs exPArgs_wf (by decide) (by rw [ht]) [] rfl
+    (.ldr 0 13 (.imm 4)) (by decide) (by decide) [0x9801] rfl (by decide)).1
+
 end Trion.C04
